@@ -41,6 +41,29 @@
  */
 namespace Tins {
 
+#ifdef TINS_VERIF_HOOKS
+/**
+ * Verification hooks (compiled only with -DTINS_VERIF_HOOKS).
+ *
+ * serialize_monitor: called by PDU::serialize when a layer's write_serialization
+ * modified a byte of the region that belongs to its inner layers (kind 0, offset
+ * relative to this layer's buffer) or when the buffer it was handed is smaller than
+ * its own header + trailer (kind 1, offset = total size).
+ * live_pdus: number of PDU objects currently alive.
+ */
+namespace VerifHooks {
+    typedef void (*serialize_monitor_type)(int pdu_type, uint32_t offset, int kind);
+    TINS_API extern serialize_monitor_type serialize_monitor;
+    TINS_API long live_pdus();
+    struct TINS_API Census {
+        Census();
+        Census(const Census&);
+        ~Census();
+        Census& operator=(const Census&) { return *this; }
+    };
+} // VerifHooks
+#endif // TINS_VERIF_HOOKS
+
 class PacketSender;
 class NetworkInterface;
 
@@ -530,6 +553,9 @@ private:
 
     PDU* inner_pdu_;
     PDU* parent_pdu_;
+    #ifdef TINS_VERIF_HOOKS
+    VerifHooks::Census verif_census_;
+    #endif // TINS_VERIF_HOOKS
 };
 
 /**
